@@ -20,7 +20,7 @@ from ..sir import pp, strip, AnalysisBroken
 
 DBL_MIN = 2.2250738585072014e-308
 CENTRE = 5
-GRID_SIZE = 100
+GRID_SIZE = 16
 INF = float("inf")
 
 
@@ -130,6 +130,10 @@ class Table:
 
     def __getitem__(self, key):
         return self.get(key)
+
+    def fill_all(self, v):
+        self.cells.clear()
+        self.fills.append((None, v))
 
     def __setitem__(self, key, v):
         self.cells[key] = v
@@ -364,8 +368,11 @@ class RouterWorld(World):
                 hi = it.rv(it.eval(args[1], frame))
                 if not isinstance(f, Closure):
                     raise AnalysisBroken("router model: run_blocks callable is not a closure")
-                # one block containing the abstract centre node
-                it.call_closure(f, [0, CENTRE, CENTRE + 1], call)
+                # one block covering the requested range (all nodes but the centre and its
+                # neighbours are masked bystanders)
+                if not (isinstance(lo, int) and isinstance(hi, int)):
+                    raise AnalysisBroken("router model: run_blocks over an abstract range")
+                it.call_closure(f, [0, lo, hi], call)
                 return None
             return None
         if name == "is_masked":
@@ -374,13 +381,17 @@ class RouterWorld(World):
                 return self.sc.centre_masked
             n = self.nb_of(i)
             if n is None:
+                if isinstance(i, int) and 0 <= i < GRID_SIZE:
+                    return True         # a bystander node (not the centre, not a neighbour): masked
                 raise AnalysisBroken("router model: is_masked(%r)" % (i,))
             return n.masked
         if name == "is_base_level":
             i = it.rv(it.eval(args[0], frame))
             if i == CENTRE:
                 return self.sc.centre_base
-            raise AnalysisBroken("router model: is_base_level of a neighbour")
+            if isinstance(i, int) and 0 <= i < GRID_SIZE:
+                return False            # neighbours / bystanders are no base levels in the scenarios
+            raise AnalysisBroken("router model: is_base_level(%r)" % (i,))
         if name == "grid" and callee.cls.endswith("flow_graph_impl"):
             return self.grid
         if name == "nodes_indices":
@@ -389,6 +400,9 @@ class RouterWorld(World):
             return GRID_SIZE
         if name == "neighbors":
             out = PyVec()
+            who = it.rv(it.eval(args[0], frame)) if args else CENTRE
+            if who != CENTRE:
+                return out      # the neighbourhood of any other node is outside the scenario: none
             for n in self.sc.nbs:
                 out.append(Obj("fastscapelib::neighbor", {"idx": n.idx, "distance": Sym("dist", "n%d" % n.k),
                                                            "status": 0}))
